@@ -69,19 +69,19 @@ Theorem C06_resume_partial : forall cd c tag h s,
 Proof. exact resume. Qed.
 
 (* full statement for the repaired code: after ANY history the next uninterrupted run succeeds *)
-Theorem C06_resume_repaired : forall c runs tag h, sane repaired c ->
+Theorem C06_resume_repaired : forall c runs tag h,
   let s := history repaired c 0 runs empty_fs in
   exists r, plan_out repaired c tag h s = inr r /\ stored c (r_tag r) (run_full repaired c tag h s)
             /\ (r_samples r = Some (r_tag r) \/ r_samples r = expected_samples c (r_tag r)).
-Proof. exact resume_repaired. Qed.
+Proof. exact resume_all_repairs. Qed.
 
-(* `sane` is needed: BFGS/LBFGS with maxiter = 0 raises UnboundLocalError on its first run *)
-Theorem C06_lbfgs_zero_updates_fails : forall rm csv keep chk,
+(* history: before f9e97f7 (variant six_repairs) BFGS/LBFGS with maxiter = 0 raised UnboundLocalError on its first run,
+   which is why the code-parametric C06_resume_partial carries the hypothesis `sane` *)
+Theorem C06_legacy_lbfgs_zero_updates_refuted : forall rm csv keep chk,
   plan_out six_repairs (mkcfg LBFGS 0 rm csv keep chk) 0 [] empty_fs = inl UnboundLocal.
 Proof. exact lbfgs_zero_updates_fails. Qed.
 
-(* prepared for proposed_fixes/C06-lbfgs-zero-iterations + C06-drawer-returns-internal (switched off in `repaired`):
-   with them no side condition on the configuration is left *)
+(* the same statement spelled with the explicit variant (all eight repairs) *)
 Theorem C06_resume_all_repairs : forall c runs tag h,
   let s := history repaired_all c 0 runs empty_fs in
   exists r, plan_out repaired_all c tag h s = inr r /\ stored c (r_tag r) (run_full repaired_all c tag h s)
